@@ -20,7 +20,7 @@ OPS = ("rfft", "ifft", "parseval", "fftconvolve", "correlate", "mspec")
 
 
 def REQUIRED(tier):
-    return [f"op:{o}" for o in OPS] + ["len:odd_good_size", "len:prime", "len:power_of_two", "direct_dft_checks", "op:rfft_after_longer", "class:max_zero", "input_unchanged_checks", "regime:second_operand_longer", "mspec:after_interpolated_request", "correlate:operands_share_a_buffer", "rfft:after_in_place_edits", "kernel:zeros_at_both_ends", "correlate:template_series_reused", "flat_kernel_on_long_offset_series", "class:high_baseline", "rfft:held_spectrum_after_deredden"]
+    return [f"op:{o}" for o in OPS] + ["len:odd_good_size", "len:prime", "len:power_of_two", "direct_dft_checks", "op:rfft_after_longer", "class:max_zero", "input_unchanged_checks", "regime:second_operand_longer", "mspec:after_interpolated_request", "correlate:operands_share_a_buffer", "rfft:after_in_place_edits", "kernel:zeros_at_both_ends", "correlate:template_series_reused", "flat_kernel_on_long_offset_series", "class:high_baseline", "rfft:held_spectrum_after_deredden", "spectra_of_2^16_bins_or_more"]
 
 
 def EXHAUSTIVE(tier):
@@ -33,6 +33,8 @@ def cases(tier, seed):
         yield {"ns": list(range(n0, min(n0 + 5, nmax + 1))), "seed": int(seed)}
     for n in ((1 << 21,) if tier == "quick" else (1 << 21, 3000017, 1 << 22)):
         yield {"ns": [], "flat_long": True, "n": n, "seed": int(seed)}
+    for n in ((1 << 17, (1 << 17) + 1001) if tier == "quick" else (1 << 17, (1 << 17) + 1001, 1 << 18, 200003, 140000)):
+        yield {"ns": [], "long_spectrum": True, "n": n, "seed": int(seed)}
     if tier == "thorough":
         rng = np.random.default_rng([seed, 1212])
         for _ in range(200):
@@ -109,10 +111,50 @@ def _flat_long(case, ctx):
     ctx.nontrivial_case({"flat_long": n})
 
 
+def _long_spectrum(case, ctx):
+    """Spectra of 2^16 bins and more (a blocked or threaded evaluation must still visit every bin): rfft against numpy's double-precision
+    transform, the amplitude spectrum against the modulus of every bin, the inverse against the zero-padded series."""
+    from sigpyproc.timeseries import TimeSeries
+
+    rng = np.random.default_rng([case["seed"], 78])
+    n = int(case["n"])
+    x = rng.normal(size=n).astype(np.float32)
+    x[n // 3] += 40.0
+    ts = TimeSeries(x.copy(), _hdr(n))
+    fs = ts.rfft()
+    X = np.asarray(fs.data).astype(np.complex128)
+    L = 2 * (X.size - 1) if True else 0
+    ctx.evaluated(); ctx.count("op:rfft"); ctx.count("spectra_of_2^16_bins_or_more")
+    one = dict(case)
+    cand = [l for l in (2 * (X.size - 1), 2 * X.size - 1) if l >= n]
+    ok = False
+    for l in cand:
+        W = np.fft.rfft(np.concatenate([x.astype(np.float64), np.zeros(l - n)]))
+        if W.size == X.size and np.max(np.abs(W - X)) <= 1e-5 * float(np.linalg.norm(x)):
+            ok = True; L = l
+    if not ok:
+        ctx.violation("rfft-values:long-spectrum", f"n={n}: the {X.size}-bin spectrum differs from the double-precision transform of the zero-padded series", one); return
+    ctx.evaluated(); ctx.count("op:mspec")
+    ms = np.asarray(fs.form_spec().data, dtype=np.float64)
+    if ms.shape != X.shape:
+        ctx.violation("mspec:long-spectrum:length", f"n={n}: amplitude spectrum has {ms.shape} bins, the spectrum {X.shape}", one); return
+    bad = np.flatnonzero(np.abs(ms - np.abs(X)) > 1e-5 * max(1.0, float(np.max(np.abs(X)))))
+    if bad.size:
+        ctx.violation("mspec:long-spectrum", f"n={n}: amplitude spectrum differs from |bin| at {bad.size} of {X.size} bins (first {bad[:3].tolist()}, last {bad[-3:].tolist()})", one); return
+    ctx.evaluated(); ctx.count("op:ifft")
+    back = np.asarray(fs.ifft().data, dtype=np.float64)
+    want = np.concatenate([x.astype(np.float64), np.zeros(L - n)])
+    if back.size != L or np.max(np.abs(back - want)) > 1e-4 * float(np.max(np.abs(x))):
+        ctx.violation("ifft:long-spectrum", f"n={n}: ifft(rfft(x)) has {back.size} samples / differs from x zero-padded to {L}", one); return
+    ctx.nontrivial_case({"long_spectrum": n})
+
+
 def run_case(case, ctx):
     from sigpyproc.core import kernels
     from sigpyproc.timeseries import TimeSeries
 
+    if case.get("long_spectrum"):
+        return _long_spectrum(case, ctx)
     if case.get("flat_long"):
         return _flat_long(case, ctx)
 
